@@ -138,9 +138,25 @@ func drawParse(t *rapid.T) ParseCase {
 	unit := rapid.SampledFrom([]string{"B", "K", "M", "G", "T", "T", "k", "KB", "", "P", " K", "Ki"}).Draw(t, "unit")
 	s := digits + unit
 	for i := rapid.SampledFrom([]int{0, 0, 0, 1, 2}).Draw(t, "nmut"); i > 0; i-- {
-		switch rapid.IntRange(0, 5).Draw(t, "mut") {
+		switch rapid.IntRange(0, 7).Draw(t, "mut") {
+		case 6, 7:
+			// digits of another script (Arabic-Indic, fullwidth, Devanagari, superscript): decimal digits to
+			// unicode.IsDigit, not to a size grammar; all of them (6) or a single one (7)
+			zero := rapid.SampledFrom([]rune{'٠', '０', '०', '𝟎'}).Draw(t, "script")
+			one := -1
+			if rapid.Bool().Draw(t, "single") {
+				one = rapid.IntRange(0, len(s)).Draw(t, "which")
+			}
+			var b strings.Builder
+			for i, r := range s {
+				if r >= '0' && r <= '9' && (one < 0 || i == one) {
+					r = zero + (r - '0')
+				}
+				b.WriteRune(r)
+			}
+			s = b.String()
 		case 0:
-			s += rapid.SampledFrom([]string{"xyz", "2", "B", " ", "K", "\n", "0"}).Draw(t, "tail")
+			s += rapid.SampledFrom([]string{"xyz", "2", "B", " ", "K", "\n", "0", "²"}).Draw(t, "tail")
 		case 1:
 			s = rapid.SampledFrom([]string{"-", "+", " ", "0x", "."}).Draw(t, "head") + s
 		case 2:
